@@ -27,6 +27,14 @@ def run(ctx, replay=None):
         ctx.add_states(r)
     r2 = ctx.tlc("MC_WorkerPool", "MC_WorkerPool_panic_pinned.cfg", workers=4, timeout=300, cwd=tla)
     r3 = ctx.tlc("MC_WorkerPool", "MC_WorkerPool_expiry_racy.cfg", workers=4, timeout=300, cwd=tla)
+    r4 = ctx.tlc("MC_WorkerPool", "MC_WorkerPool_panic_notifyfirst.cfg", workers=4, timeout=300, cwd=tla)
+    r5 = ctx.tlc("MC_WorkerPool", "MC_WorkerPool_expiry_leaverpolls.cfg", workers=4, timeout=300, cwd=tla)
+    r6 = ctx.tlc("MC_WorkerPool", "MC_WorkerPool_expiry_bound.cfg", workers=8, timeout=600, cwd=tla)
+    if not r6.completed:
+        raise core.Inconclusive("WorkerPool model: the concurrency bound does not hold with idle expiry (expiry_bound)")
+    ctx.add_states(r6)
+    if not r4.prop_violated or "Inv_MaxConcurrent" not in (r5.inv_violated or []):
+        raise core.Inconclusive("WorkerPool variants NotifyFirst / LeaverPolls: expected counterexamples (vacuity guard)")
     if not r2.prop_violated or not r3.prop_violated:
         raise core.Inconclusive("WorkerPool variants: expected stranding counterexamples without panic notification / with the racy expiry check (vacuity guard)")
     ctx.notes.append("WorkerPool.tla: the code's variant (spawn loop woken when a worker dies from a panic; expiry check and decrement in one critical section) satisfies "
